@@ -76,6 +76,11 @@ CHECKS = {
    text="Proof: lockstep (one step of the source semantics, whose program counter ranges over source items and whose jumps go to the item a label is written in front of, corresponds to one simulator step of the assembled program, with the ROM address the number of instruction items before the source position), lifted to any number of steps; start states agree when the entry label precedes the first instruction (refuted otherwise: known finding, the 'entry' metadata is never used); inferred R/N/M/O fit every register, port and address of the program. Tie per run: 40 (quick) / 500 generated sources with 1-3 processors wired by ioatt, labels, forward/backward j/jz, all four mov forms, entry directive first or elsewhere, sync/async, register sizes 8/16/32: assembled program and sizes equal the model's, bond set equals the ioatt lines, 40 ticks of external streams equal the whole machine run from the source-level semantics (Net.Tick with source steps). Macros, data sections, templates, fragments (C06) are outside the model (partial).",
    design_ref="DESIGN.md section 5, C05",
    note="Trusted: Coq kernel; Front/Basm.v hand-written; Isa/Sim.v and Net/Tick.v (tied in C09)."),
+ "C16": dict(
+   technique="a validator written in Coq (wf_bondmachine: ROM word width and decodability with the opcode layouts regenerated from the source, port indices in range, sorted duplicate-free opcode lists, ROM within 2^O, equal register sizes, well-formed bond graph, domain port counts) evaluated by vm_compute on every machine the real front-ends emit in the run, with theorems about what a positive answer guarantees and about the assembler's sizing",
+   text="Theorems: a validated word has the architecture's width, carries the number of one of the processor's opcodes and the simulator's disassembler cannot fail on it; a validated processor has a duplicate-free opcode list, fixed-width ROM within 2^O; the assembler's sizing (needed_bits, R/N/M/O inference) fits every register, port and address of the program it was derived from (with C05's model of creatorbm.go); bond graphs built by edit operations are well formed (C10). Per run: machines from basm (corpus, with and without the chooser, generated C05 sources), neuralbond->basm in both modes, bmqsim->basm, bondgo single and multi processor are loaded through Bondmachine_json.Dejsoner and validated; four sources that cannot fit (literal wider than the registers via rset and via mov, undefined label, romsize too small) must be rejected. Level: translation validation of each emitted machine plus proof about the validator and the sizing.",
+   design_ref="DESIGN.md section 5, C16",
+   note="Trusted: Coq kernel; Front/Wf.v validator; translators/layout.py (validated in C03); harness/c16.go."),
 }
 NOT_APPLICABLE = []
 
